@@ -77,7 +77,7 @@ def gen_cases(tier, seed):
         for op in OPS:
             tt = rng.choice(TYPES) if tier == "quick" else None
             for t in ([tt, rng.choice(TYPES)] if tt else TYPES):
-                cases.append({"kind": "arith", "ta": ta, "a": a, "tb": tb, "b": b, "op": op, "tt": t})
+                cases.append({"kind": "arith", "ta": ta, "a": a, "tb": tb, "b": b, "op": op, "tt": t, "form": rng.choice(["plain", "paren"])})
     # random values inside the ranges
     nr = 4000 if tier == "quick" else 300000
     for _ in range(nr):
@@ -108,7 +108,14 @@ def build(case):
         return src, "", None, ("error", res[1])
     if case["kind"] == "arith":
         ta, a, tb, b, op, tt = case["ta"], case["a"], case["tb"], case["b"], case["op"], case["tt"]
-        src = "A%s = %s\nB%s = %s\nT%s = A%s %s B%s\nPRINT T%s\n" % (ta, value_expr(ta, a), tb, value_expr(tb, b), tt, ta, op, tb, tt)
+        # the computed value also reaches the variable through parentheses and a unary minus (other code paths of the store)
+        form = case.get("form", "plain")
+        expr = "A%s %s B%s" % (ta, op, tb)
+        if form == "paren":
+            expr = "(" + expr + ")"
+        elif form == "negneg":
+            expr = "-(-(" + expr + "))"
+        src = "A%s = %s\nB%s = %s\nT%s = %s\nPRINT T%s\n" % (ta, value_expr(ta, a), tb, value_expr(tb, b), tt, expr, tt)
         it = Interp({"main": []})
         try:
             r = it.binop(op, (ta, a if ta in "%&" else Fraction(a)), (tb, b if tb in "%&" else Fraction(b)))
